@@ -12,7 +12,8 @@ import shutil
 
 # long strain-like names: the second and the third share their first 57 characters, and a sorted two-sample selection is
 # longer than 128 characters (file-name length handling of the cache must not make two selections collide)
-S1 = 'Alpha_' + 'r' * 64
+# the first name holds a blank (legal: the #CHROM line is tab separated, and strain names such as '129S1 SvImJ' occur)
+S1 = 'Alpha strain_' + 'r' * 57
 S2 = 'Strain_' + 'q' * 60 + '_2'
 S3 = 'Strain_' + 'q' * 60 + '_3'
 SAMPLES = (S1, S2, S3)
